@@ -175,4 +175,38 @@ class LocalTimeRandom(Sub):
         return t < 0 or (t // 86400 != (t + off) // 86400), "neg" if t < 0 else "pos"
 
 
-SUBS = [Years(), Dates(), LocalTimeBoundaries(), LocalTimeRandom()]
+from vf import oracle_tz as T  # noqa: E402
+
+
+class AwareGetters(Sub):
+    name = "aware_getters_across_zones"
+    backends = ("rust", "py")
+    n = {"quick": 6000, "thorough": 150000}
+    shards = {"quick": 2, "thorough": 8}
+    rule = ("one instant within 14 h of a year (or month) boundary rendered in two zones and UTC, the getters called on the three equal-instant values one after the other: each must "
+            "describe ITS OWN local date (aware datetimes of one instant are == and hash-equal, so anything keyed on the value must not leak); non-trivial: the local dates differ")
+
+    def strategy(self, ctx):
+        zone = st.sampled_from(["Pacific/Kiritimati", "Pacific/Auckland", "Asia/Tokyo", "Asia/Kolkata", "Europe/Paris", "UTC", "America/New_York", "America/Los_Angeles",
+                                "Pacific/Honolulu", "Pacific/Pago_Pago", "Pacific/Apia", "Australia/Lord_Howe"])
+        return st.fixed_dictionaries({"y": st.integers(3, 9997), "m": st.sampled_from([1, 1, 1, 3, 7, 12]), "d": S.uni(-14 * 3600 * 10**6, 14 * 3600 * 10**6), "z1": zone, "z2": zone})
+
+    def check(self, case, ctx):
+        u = T.naive_us(D.datetime(case["y"], case["m"], 1)) + case["d"]
+        dates = set()
+        for z in (case["z1"], case["z2"], "UTC", case["z1"]):
+            r = T.render(u, z)
+            p = pendulum.instance(r)
+            d = D.date(r.year, r.month, r.day)
+            dates.add(d)
+            exp = {"day_of_week": d.weekday(), "day_of_year": d.timetuple().tm_yday, "week_of_year": d.isocalendar()[1], "days_in_month": calendar.monthrange(d.year, d.month)[1],
+                   "quarter": (d.month - 1) // 3 + 1, "week_of_month": next(i for i, row in enumerate(calendar.monthcalendar(d.year, d.month), 1) if d.day in row)}
+            for k, v in exp.items():
+                req(int(getattr(p, k)) == v, f"DateTime.{k} does not describe the value's own local date", value=r.isoformat(), got=int(getattr(p, k)), expected=v)
+            req(p.is_leap_year() == calendar.isleap(d.year), "DateTime.is_leap_year() does not describe the value's own local year", value=r.isoformat())
+            req(p.is_long_year() == (D.date(d.year, 12, 28).isocalendar()[1] == 53), "DateTime.is_long_year() does not describe the value's own local year", value=r.isoformat(),
+                got=p.is_long_year())
+        return len(dates) > 1, "dates-differ" if len(dates) > 1 else "same-date"
+
+
+SUBS = [Years(), Dates(), LocalTimeBoundaries(), LocalTimeRandom(), AwareGetters()]
